@@ -51,6 +51,11 @@ function e.extbad2(f) return f:extensionTag({name={}, content={}}) end
 function e.argbad(f) return f.args[{}] end
 function e.preboom(f) local ok, r = pcall(f.preprocess, f, "{{#if:x|{{ta|{{boom}}}}}}") return "c" .. tostring(ok) end
 function e.etboom(f) return f:expandTemplate{title="td", args={"{{boom}}"}} end
+-- many caught callback failures INSIDE one invocation, then an ordinary shallow expansion (real depth 3)
+function e.manybad(f) for i = 1, 70 do pcall(f.expandTemplate, f, {title=5}) end return f:preprocess("{{ta|z}}") end
+function e.manybad2(f) for i = 1, 110 do pcall(f.extensionTag, f, "ref", "x", {1, 2}) end return f:preprocess("{{ta|z}}") end
+function e.manybad3(f) for i = 1, 110 do pcall(f.preprocess, f, {text={}}) pcall(f.expandTemplate, f, {title="ta", args=7}) end return f:expandTemplate{title="ta", args={"z"}} end
+function e.manybad4(f) for i = 1, 110 do pcall(f.callParserFunction, f, {name="#if", args=5}) pcall(f.preprocess, f, "{{#invoke:m|err}}") end return f:preprocess("{{ta|z}}") end
 function e.nestbad(f) return f:preprocess("{{#invoke:m|etbad}}{{#invoke:m|ok}}") end
 return e'''
 SPECIAL = [
@@ -70,16 +75,19 @@ SPECIAL = [
     "{{#if:x|{{ta|{{boom}}}}}}", "{{#switch:a|a={{tb|{{boom}}}}|b}}", "{{#ifeq:{{boom}}|a|b|c}}", "{{td|{{#if:1|{{boom}}}}}}",
     "{{lc:{{#if:x|{{boom}}}}}}", "{{#invoke:m|ok|{{#if:x|{{boom}}}}}}", "{{#if:x|{{#invoke:m|ok|{{boom}}}}}}", "{{ta|{{boom}}}}",
     "{{#if:{{#if:{{boom}}|a}}|b}}", "{{#invoke:m|preboom}}", "{{#invoke:m|etboom}}",
+    "{{#invoke:m|manybad}}", "{{#invoke:m|manybad2}}", "{{#invoke:m|manybad3}}", "{{#invoke:m|manybad4}}",
     # argument names that are digits but not decimal numbers, as call arguments and as {{{name}}} references
     "{{#if:x|{{ta|a|\u2460=one}}}}", "{{#if:x|{{ta|\u00b2=b}}}}", "{{#switch:a|a={{tu|x|\u0663=y}}}}", "{{tu|\u2460=1}}",
     "{{#if:x|{{tu}}}}", "{{lc:{{tu|\u0968=z}}}}",
 ]
+# pages whose real nesting depth is 3: a depth error inside them is bogus whatever happened before in the invocation
+SHALLOW_PAGES = {"{{#invoke:m|manybad}}", "{{#invoke:m|manybad2}}", "{{#invoke:m|manybad3}}", "{{#invoke:m|manybad4}}"}
 TIMEOUT_PAGES = {"{{#invoke:m|spin}}", "{{#invoke:m|prespin}}"}
 
 
 def floors(tier):
     return {"oracle.expand.stack": 2000, "oracle.parse.stack": 200, "oracle.messages-shape": 2000,
-            "oracle.start_page.post": 500, "oracle.repeat-no-new-depth-error": 20, "sets.option_combos": 27, "oracle.repo-tests.expand.stack": 500, "counters.calls_raising(ValueError)": 5, "counters.hook-raised-and-call-returned": 20,
+            "oracle.start_page.post": 500, "oracle.repeat-no-new-depth-error": 20, "sets.option_combos": 27, "oracle.repo-tests.expand.stack": 500, "oracle.shallow-page-no-depth-error": 10, "counters.calls_raising(ValueError)": 5, "counters.hook-raised-and-call-returned": 20,
             "counters.nested_contract_evals": 50, "counters.messages_checked": 500,
             "counters.calls_with_lua_error": 20, "counters.calls_with_template_loop": 20}
 
@@ -189,6 +197,10 @@ class Mon:
             # totality is C05's business; here only the stack after a *returning* call matters
             self.obs.count("calls_raising(" + type(e).__name__ + ")")
             return [], None
+        if page in SHALLOW_PAGES and isinstance(res, str):
+            self.obs.check("shallow-page-no-depth-error")
+            if "too deep recursion" in res or ("[z]" not in res and "#invoke" not in res):
+                probs.append(("depth-error-inside-one-invocation-after-caught-callback-failures", "result=%r" % res[:200]))
         if raised:
             self.obs.count("hook-raised-and-call-returned")
         if list(ctx.expand_stack) != before:
